@@ -1179,3 +1179,543 @@ Proof.
     cbn [Z.eqb Pos.eqb orb] in Hm;
     try solve [sym_one s1 N A Eo Hp tail]; try solve [sym_two s1 N A Eo Hp tail]; try solve [sym_three s1 N A Eo Hp tail].
 Qed.
+
+Ltac lens3 := repeat rewrite app_length in *; cbn [length] in *; lia.
+
+(* ---------- numerals ---------- *)
+
+Definition P1 (c : Z) : bool := is_dec c || (c =? 46).
+
+Lemma span_dec_spec s :
+  s = fst (span_dec s) ++ snd (span_dec s) /\ forallb is_dec (fst (span_dec s)) = true /\
+  is_dec (head_or_eof (snd (span_dec s))) = false.
+Proof.
+  induction s as [|c r IH]; simpl; auto.
+  destruct (is_dec c) eqn:E.
+  - destruct (span_dec r) as [a b]. simpl in *. destruct IH as (I1 & I2 & I3).
+    rewrite E. repeat split; auto. f_equal. exact I1.
+  - simpl. auto.
+Qed.
+
+Lemma drop_dec_span s : drop_dec s = (length (fst (span_dec s)), snd (span_dec s)).
+Proof.
+  induction s as [|c r IH]; simpl; auto.
+  destruct (is_dec c); auto. rewrite IH. destruct (span_dec r). reflexivity.
+Qed.
+
+Lemma match46 {A} (r : bytes) (f : bytes -> A) (g : A) :
+  (match r with 46 :: r1 => f r1 | _ => g end)
+  = match r with c :: r1 => if c =? 46 then f r1 else g | [] => g end.
+Proof.
+  destruct r as [|c r1]; auto. destruct (c =? 46) eqn:E.
+  - assert (c = 46) by lia. subst. reflexivity.
+  - destruct c as [|p|p]; auto. repeat (destruct p as [p|p|]; auto). discriminate.
+Qed.
+
+Lemma match46_ne {A} x (r : bytes) (f : bytes -> A) (g : A) :
+  x <> 46 -> (match x :: r with 46 :: r1 => f r1 | _ => g end) = g.
+Proof.
+  intros H. destruct x as [|p|p]; auto. repeat (destruct p as [p|p|]; auto). congruence.
+Qed.
+
+Lemma is_numeral_dec_eq s : is_numeral_dec s = dec_number_ok s.
+Proof.
+  unfold is_numeral_dec, dec_number_ok.
+  rewrite drop_dec_span. destruct (span_dec s) as [d1 r]. cbn [fst snd].
+  assert (E2 : (match r with 46 :: r0 => drop_dec r0 | _ => (O, r) end)
+               = (let '(d2, r2) := match r with 46 :: r1 => span_dec r1 | _ => ([], r) end in (length d2, r2))).
+  { rewrite !match46. destruct r as [|c r']; auto. destruct (c =? 46); auto.
+    rewrite drop_dec_span. destruct (span_dec r'); reflexivity. }
+  rewrite E2. destruct (match r with 46 :: r1 => span_dec r1 | _ => ([], r) end) as [d2 r2].
+  destruct (Nat.eqb (length d1 + length d2) 0); cbn [negb andb]; auto.
+  unfold exponent_ok. destruct r2 as [|e r']; auto.
+  destruct ((e =? 101) || (e =? 69)); cbn [andb]; auto.
+  assert (E3 : (match r' with sg :: r'0 => if (sg =? 43) || (sg =? 45) then r'0 else r' | [] => r' end)
+               = (match r' with sg :: r'0 => if (sg =? 45) || (sg =? 43) then r'0 else r' | [] => r' end)).
+  { destruct r'; auto. rewrite orb_comm. reflexivity. }
+  rewrite E3. rewrite drop_dec_span.
+  destruct (span_dec _) as [d3 r3]. cbn [fst snd].
+  destruct d3; cbn [length Nat.eqb]; auto; destruct r3; auto.
+Qed.
+
+Lemma dec_not_hex c0 x r :
+  dec_number_ok (c0 :: x :: r) = true -> (c0 =? 48) && ((x =? 120) || (x =? 88)) = false.
+Proof.
+  intros H. destruct ((c0 =? 48) && ((x =? 120) || (x =? 88))) eqn:E; auto. exfalso.
+  apply andb_true_iff in E. destruct E as [E0 Ex]. assert (c0 = 48) by lia. subst c0.
+  assert (Hx : x = 120 \/ x = 88) by lia.
+  destruct Hx; subst x; unfold dec_number_ok in H; cbn in H; discriminate.
+Qed.
+
+Lemma hex_number_ok_inv s : hex_number_ok s = true ->
+  exists x y r, s = 48 :: x :: y :: r /\ ((x =? 120) || (x =? 88)) = true /\ forallb is_hex (y :: r) = true.
+Proof.
+  unfold hex_number_ok. destruct s as [|c0 [|x [|y r]]]; intros H.
+  - discriminate.
+  - destruct c0 as [|p|p]; try discriminate. repeat (destruct p as [p|p|]; try discriminate).
+  - destruct c0 as [|p|p]; try discriminate. repeat (destruct p as [p|p|]; try discriminate).
+  - destruct c0 as [|p|p]; try discriminate. repeat (destruct p as [p|p|]; try discriminate).
+    apply andb_true_iff in H. destruct H. exists x, y, r. auto.
+Qed.
+
+Lemma is_numeral_ok s : number_ok s = true -> is_numeral s = true.
+Proof.
+  unfold number_ok. intros H. apply orb_true_iff in H. destruct H as [H|H].
+  - destruct (hex_number_ok_inv s H) as (x & y & r & -> & Hx & Hr).
+    unfold is_numeral. cbn [Z.eqb Pos.eqb andb]. rewrite Hx. exact Hr.
+  - unfold is_numeral. destruct s as [|c0 [|x [|y r]]]; try (rewrite is_numeral_dec_eq; exact H).
+    rewrite (dec_not_hex _ _ _ H). rewrite is_numeral_dec_eq. exact H.
+Qed.
+
+Definition expform (E G : bytes) : Prop :=
+  (E = [] /\ G = []) \/
+  (G <> [] /\ exists e, (e = 101 \/ e = 69) /\ (E = [e] \/ exists sg, (sg = 45 \/ sg = 43) /\ E = [e; sg])).
+
+Lemma P1_dec l : forallb is_dec l = true -> forallb P1 l = true.
+Proof. induction l; simpl; auto. intros H. apply andb_true_iff in H. destruct H as [H1 H2]. unfold P1 at 1. rewrite H1. simpl. auto. Qed.
+
+Lemma exponent_decomp r2 : exponent_ok r2 = true -> is_dec (head_or_eof r2) = false ->
+  exists E G, r2 = E ++ G /\ forallb is_dec G = true /\ expform E G.
+Proof.
+  unfold exponent_ok. destruct r2 as [|e r]; intros H Hd.
+  - exists [], []. repeat split; auto. left; auto.
+  - apply andb_true_iff in H. destruct H as [He H].
+    assert (He' : e = 101 \/ e = 69) by lia.
+    destruct r as [|sg r'].
+    + simpl in H. discriminate.
+    + destruct ((sg =? 45) || (sg =? 43)) eqn:Es.
+      * pose proof (span_dec_spec r') as (S1 & S2 & S3).
+        destruct (span_dec r') as [g rest]. cbn [fst snd] in *.
+        destruct g as [|g0 g']; [discriminate|]. destruct rest; [|discriminate].
+        exists [e; sg], (g0 :: g'). rewrite app_nil_r in S1. subst r'. repeat split; auto.
+        right. split; [discriminate|]. exists e. split; auto. right. exists sg. split; auto. lia.
+      * pose proof (span_dec_spec (sg :: r')) as (S1 & S2 & S3).
+        destruct (span_dec (sg :: r')) as [g rest]. cbn [fst snd] in *.
+        destruct g as [|g0 g']; [discriminate|]. destruct rest; [|discriminate].
+        exists [e], (g0 :: g'). rewrite app_nil_r in S1. rewrite S1. repeat split; auto.
+        right. split; [discriminate|]. exists e. split; auto.
+Qed.
+
+Lemma dec_number_decomp s : dec_number_ok s = true ->
+  exists M E G, s = M ++ E ++ G /\ M <> [] /\ forallb P1 M = true /\ forallb is_dec G = true /\ expform E G.
+Proof.
+  unfold dec_number_ok. pose proof (span_dec_spec s) as (S1 & S2 & S3).
+  destruct (span_dec s) as [d1 r]. cbn [fst snd] in *.
+  rewrite match46. destruct r as [|c r1].
+  - (* digits only *)
+    intros H. apply andb_true_iff in H. destruct H as [Hn _].
+    exists d1, [], []. rewrite !app_nil_r in *. repeat split; auto.
+    + destruct d1; [discriminate|discriminate].
+    + apply P1_dec; auto.
+    + left; auto.
+  - destruct (c =? 46) eqn:Ec.
+    + assert (c = 46) by lia. subst c.
+      pose proof (span_dec_spec r1) as (T1 & T2 & T3).
+      destruct (span_dec r1) as [d2 r2]. cbn [fst snd] in *.
+      intros H. apply andb_true_iff in H. destruct H as [Hn He].
+      destruct (exponent_decomp r2 He T3) as (E & G & E1 & E2 & E3).
+      exists (d1 ++ 46 :: d2), E, G. repeat split; auto.
+      * rewrite S1, T1, E1. rewrite <- !app_assoc. reflexivity.
+      * destruct d1; discriminate.
+      * rewrite forallb_app. rewrite (P1_dec _ S2). cbn [forallb]. rewrite (P1_dec _ T2). reflexivity.
+    + intros H. apply andb_true_iff in H. destruct H as [Hn He].
+      destruct (exponent_decomp (c :: r1) He S3) as (E & G & E1 & E2 & E3).
+      exists d1, E, G. repeat split; auto.
+      * rewrite S1, E1. reflexivity.
+      * destruct d1; [simpl in Hn; discriminate|discriminate].
+      * apply P1_dec; auto.
+Qed.
+
+Lemma P1_class c : P1 c = true -> is_nl c = false /\ byteb c = true.
+Proof. unfold P1, is_dec, is_nl, byteb. lia. Qed.
+
+Lemma hex_ident l : forallb is_hex l = true -> forallb (fun c => is_ident c 1) l = true.
+Proof.
+  induction l; simpl; auto. intros H. apply andb_true_iff in H. destruct H as [H1 H2].
+  rewrite IHl by auto. unfold is_hex, is_dec in H1. unfold is_ident, is_dec.
+  replace ((a =? 95) || (65 <=? a) && (a <=? 90) || (97 <=? a) && (a <=? 122) || (48 <=? a) && (a <=? 57) && (0 <? 1)) with true by lia.
+  reflexivity.
+Qed.
+
+Lemma dec_ident l : forallb is_dec l = true -> forallb (fun c => is_ident c 1) l = true.
+Proof.
+  induction l; simpl; auto. intros H. apply andb_true_iff in H. destruct H as [H1 H2].
+  rewrite IHl by auto. unfold is_dec in H1. unfold is_ident, is_dec.
+  replace ((a =? 95) || (65 <=? a) && (a <=? 90) || (97 <=? a) && (a <=? 122) || (48 <=? a) && (a <=? 57) && (0 <? 1)) with true by lia.
+  reflexivity.
+Qed.
+
+Lemma number_run fuel c0 s' tail st1 o :
+  number_ok (c0 :: s') = true ->
+  is_alnum_ (head_or_eof tail) = false -> head_or_eof tail <> 46 ->
+  at_ st1 (s' ++ tail) o -> (length (s' ++ tail) < fuel)%nat ->
+  exists st', scan_number fuel c0 st1 = Ok (c0 :: s') st' /\ at_ st' tail (o + len s').
+Proof.
+  intros Hok Hal H46 Hat Hf.
+  pose proof (is_numeral_ok _ Hok) as Hnum.
+  assert (HP1t : P1 (head_or_eof tail) = false).
+  { unfold P1. unfold is_alnum_, is_ident in Hal. unfold is_dec in *. lia. }
+  assert (HeE : (head_or_eof tail =? 101) || (head_or_eof tail =? 69) = false).
+  { unfold is_alnum_, is_ident in Hal. lia. }
+  unfold number_ok in Hok. apply orb_true_iff in Hok. destruct Hok as [Hh|Hd].
+  - (* hexadecimal *)
+    destruct (hex_number_ok_inv _ Hh) as (x & y & r & E & Hx & Hr). inversion E; subst c0 s'. clear E.
+    unfold scan_number. change (take_while fuel (fun c : Z => is_dec c || (c =? 46)) st1) with (take_while fuel P1 st1).
+    destruct (take_while_run fuel P1 [] st1 ((x :: y :: r) ++ tail) o P1_class ltac:(reflexivity)
+                ltac:(cbn [app head_or_eof]; unfold P1, is_dec; lia) Hat Hf) as (sa & Ea & Aa).
+    rewrite Ea. cbn [bind]. rewrite (peek_at_head _ _ _ Aa). cbn [app head_or_eof].
+    replace ((x =? 101) || (x =? 69)) with false by lia.
+    assert (Hid : forallb (fun c => is_ident c 1) (x :: y :: r) = true).
+    { pose proof (hex_ident _ Hr) as Hhx. cbn [forallb] in *. rewrite Hhx.
+      assert (Hx' : x = 120 \/ x = 88) by lia. destruct Hx'; subst x; reflexivity. }
+    destruct (take_while_run fuel (fun c => is_ident c 1) (x :: y :: r) sa tail _ ident_class Hid
+                Hal Aa ltac:(clear - Hf; lens3)) as (sb & Eb & Ab).
+    rewrite Eb. cbn [bind app]. replace (wc 48) with 48 by reflexivity. rewrite Hnum.
+    exists sb. split; auto. at_exact Ab. len_norm. clear. lia.
+  - (* decimal *)
+    destruct (dec_number_decomp _ Hd) as (M & E & G & Es & HM & HMP & HG & HE).
+    destruct M as [|m0 M']; [congruence|]. cbn [app] in Es. inversion Es; subst m0 s'. clear Es.
+    cbn [forallb] in HMP. apply andb_true_iff in HMP. destruct HMP as [Hc0 HM'].
+    rewrite <- !app_assoc in Hat, Hf.
+    assert (Hq : P1 (head_or_eof (E ++ G ++ tail)) = false).
+    { destruct HE as [[-> ->]|(HGne & e & He & HEe)]; [exact HP1t|].
+      destruct HEe as [->|(sg & _ & ->)]; cbn [app head_or_eof]; unfold P1, is_dec; lia. }
+    unfold scan_number. change (take_while fuel (fun c : Z => is_dec c || (c =? 46)) st1) with (take_while fuel P1 st1).
+    destruct (take_while_run fuel P1 M' st1 _ o P1_class HM' Hq Hat Hf) as (sa & Ea & Aa).
+    rewrite Ea. cbn [bind].
+    assert (Hc0b : wc c0 = c0) by (apply wc_byte; apply P1_class; auto).
+    destruct HE as [[-> ->]|(HGne & e & He & HEe)].
+    + (* no exponent *)
+      cbn [app] in *. rewrite (peek_at_head _ _ _ Aa), HeE.
+      destruct (take_while_run fuel (fun c => is_ident c 1) [] sa tail _ ident_class ltac:(reflexivity) Hal Aa
+                  ltac:(clear - Hf; lens3)) as (sb & Eb & Ab).
+      rewrite Eb. cbn [bind]. rewrite !app_nil_r in *. rewrite Hc0b, Hnum.
+      exists sb. split; auto. at_exact Ab. len_norm. clear. lia.
+    + destruct G as [|g0 G']; [congruence|].
+      assert (Hg0 : is_dec g0 = true) by (cbn [forallb] in HG; apply andb_true_iff in HG; tauto).
+      assert (Heb : is_nl e = false /\ byteb e = true) by (destruct He; subst; split; reflexivity).
+      destruct HEe as [->|(sg & Hsg & ->)].
+      * cbn [app] in Aa. rewrite (peek_at _ _ _ _ Aa).
+        replace ((e =? 101) || (e =? 69)) with true by (clear - He; lia).
+        destruct (next_plain _ _ _ _ Aa (proj1 Heb) (proj2 Heb)) as (s2 & N2 & A2 & _). rewrite N2.
+        rewrite (peek_at _ _ _ _ A2).
+        replace ((g0 =? 45) || (g0 =? 43)) with false by (clear - Hg0; unfold is_dec in Hg0; lia).
+        destruct (take_while_run fuel (fun c => is_ident c 1) (g0 :: G') s2 tail _ ident_class (dec_ident _ HG) Hal A2
+                    ltac:(clear - Hf; lens3)) as (sb & Eb & Ab).
+        rewrite Eb. cbn [bind]. rewrite Hc0b, (wc_byte e) by tauto.
+        cbn [app] in Hnum. cbn [app]. rewrite Hnum.
+        exists sb. split; auto. at_exact Ab. len_norm. clear. lia.
+      * cbn [app] in Aa. rewrite (peek_at _ _ _ _ Aa).
+        replace ((e =? 101) || (e =? 69)) with true by (clear - He; lia).
+        destruct (next_plain _ _ _ _ Aa (proj1 Heb) (proj2 Heb)) as (s2 & N2 & A2 & _). rewrite N2.
+        rewrite (peek_at _ _ _ _ A2).
+        replace ((sg =? 45) || (sg =? 43)) with true by (clear - Hsg; lia).
+        assert (Hsb : is_nl sg = false /\ byteb sg = true) by (destruct Hsg; subst; split; reflexivity).
+        destruct (next_plain _ _ _ _ A2 (proj1 Hsb) (proj2 Hsb)) as (s3 & N3 & A3 & _). rewrite N3.
+        destruct (take_while_run fuel (fun c => is_ident c 1) (g0 :: G') s3 tail _ ident_class (dec_ident _ HG) Hal A3
+                    ltac:(clear - Hf; lens3)) as (sb & Eb & Ab).
+        rewrite Eb. cbn [bind]. rewrite Hc0b, (wc_byte e), (wc_byte sg) by tauto.
+        cbn [app] in Hnum. cbn [app]. rewrite Hnum.
+        exists sb. split; auto. at_exact Ab. len_norm. clear. lia.
+Qed.
+
+(* ---------- numerals as tokens ---------- *)
+
+Lemma dot_number s' : dec_number_ok (46 :: s') = true -> is_dec (head_or_eof s') = true.
+Proof.
+  assert (E : dec_number_ok (46 :: s') =
+              (let '(d2, r2) := span_dec s' in negb (Nat.eqb (length (@nil Z) + length d2) 0) && exponent_ok r2))
+    by reflexivity.
+  rewrite E. pose proof (span_dec_spec s') as (S1 & S2 & S3).
+  destruct (span_dec s') as [d2 r2]. cbn [fst snd] in *.
+  destruct d2 as [|g d2']; [cbn; discriminate|]. intros _.
+  rewrite S1. cbn [app head_or_eof]. cbn [forallb] in S2. apply andb_true_iff in S2. tauto.
+Qed.
+
+Lemma number_first s : number_ok s = true ->
+  exists c0 s', s = c0 :: s' /\ (is_dec c0 = true \/ (c0 = 46 /\ is_dec (head_or_eof s') = true)).
+Proof.
+  unfold number_ok. intros H. apply orb_true_iff in H. destruct H as [H|H].
+  - destruct (hex_number_ok_inv s H) as (x & y & r & -> & _). exists 48, (x :: y :: r). split; auto.
+  - destruct (dec_number_decomp s H) as (M & E & G & Es & HM & HMP & _).
+    destruct M as [|c0 M']; [congruence|]. exists c0, (M' ++ E ++ G). split; [exact Es|].
+    cbn [forallb] in HMP. apply andb_true_iff in HMP. destruct HMP as [Hc0 _].
+    unfold P1 in Hc0. apply orb_true_iff in Hc0. destruct Hc0 as [Hc0|Hc0]; [left; auto|right].
+    assert (c0 = 46) by lia. subst c0. split; auto.
+    apply dot_number. rewrite Es in H. exact H.
+Qed.
+
+Lemma scan_tok_digit fuel redo c st1 :
+  is_dec c = true ->
+  scan_tok fuel redo c st1 =
+  lift_tok (scan_number fuel c st1) (fun s st2 => STok (mkTok TNumber s (line st1) (off st1 - 1)) st2).
+Proof.
+  intros H. unfold scan_tok. cbv zeta.
+  replace (is_ident c 0) with false by (unfold is_ident, is_dec in *; lia). rewrite H. reflexivity.
+Qed.
+
+Lemma scan_tok_dot fuel redo st1 :
+  is_dec (peek st1) = true ->
+  scan_tok fuel redo 46 st1 =
+  lift_tok (scan_number fuel 46 st1) (fun s st2 => STok (mkTok TNumber s (line st1) (off st1 - 1)) st2).
+Proof. intros H. unfold scan_tok. cbv zeta. rewrite H. reflexivity. Qed.
+
+Lemma number_tok_ok s tail :
+  number_ok s = true -> no_merge (LxNumber s) (head_or_eof tail) = true -> tok_ok (LxNumber s) tail.
+Proof.
+  intros Hok Hm fuel redo stX o Hf Hat. cbn [lexeme_bytes lexeme_type lexeme_text no_merge] in *.
+  apply andb_true_iff in Hm. destruct Hm as [Hal H46].
+  assert (Hal' : is_alnum_ (head_or_eof tail) = false) by (destruct (is_alnum_ _); auto; discriminate).
+  assert (H46' : head_or_eof tail <> 46) by lia.
+  destruct (number_first s Hok) as (c0 & s' & -> & Hc0).
+  rewrite <- app_comm_cons in Hat.
+  assert (Hcb : is_nl c0 = false /\ byteb c0 = true).
+  { destruct Hc0 as [Hc0|[-> _]]; [unfold is_dec in Hc0; unfold is_nl, byteb; lia|split; reflexivity]. }
+  destruct (next_plain _ _ _ _ Hat (proj1 Hcb) (proj2 Hcb)) as (s1 & N & A & _).
+  destruct (number_run fuel c0 s' tail s1 (o + 1) Hok Hal' H46' A ltac:(clear - Hf; simpl in Hf; lia))
+    as (st' & E & A').
+  exists c0, s1, st'. split; auto.
+  assert (Eo : off s1 - 1 = o) by (destruct A as [_ A2]; lia).
+  split.
+  - destruct Hc0 as [Hc0|[-> Hd]].
+    + rewrite scan_tok_digit by auto. rewrite E. cbn [lift_tok]. rewrite Eo. reflexivity.
+    + rewrite scan_tok_dot.
+      * rewrite E. cbn [lift_tok]. rewrite Eo. reflexivity.
+      * rewrite (peek_at_head _ _ _ A). destruct s' as [|g s'']; [discriminate|]. exact Hd.
+  - at_exact A'. len_norm. clear. lia.
+Qed.
+
+(* ---------- every lexeme ---------- *)
+
+Lemma lexeme_tok_ok l tail :
+  lexeme_ok l = true -> no_merge l (head_or_eof tail) = true -> tok_ok l tail.
+Proof.
+  intros Hok Hm. destruct l as [s|s|q items|lvl body|ty].
+  - apply name_tok_ok; auto. cbn in Hm. destruct (is_alnum_ _); auto; discriminate.
+  - apply number_tok_ok; auto.
+  - cbn in Hok. apply andb_true_iff in Hok. destruct Hok. apply string_tok_ok; auto.
+  - cbn in Hok. apply andb_true_iff in Hok. destruct Hok. apply long_tok_ok; auto.
+  - apply sym_tok_ok; auto.
+Qed.
+
+(* ---------- the rendering consists of bytes; a lexeme starts with a non-blank byte ---------- *)
+
+Lemma is_bytes_app_iff a b : is_bytes (a ++ b) = is_bytes a && is_bytes b.
+Proof. unfold is_bytes. apply forallb_app. Qed.
+
+Lemma class_bytes (p : Z -> bool) l :
+  (forall c, p c = true -> byteb c = true) -> forallb p l = true -> is_bytes l = true.
+Proof.
+  intros Hp. induction l; simpl; auto. intros H. apply andb_true_iff in H. destruct H as [H1 H2].
+  unfold is_bytes in *. simpl. rewrite IHl by auto. specialize (Hp _ H1). unfold byteb, is_byte in *. rewrite Hp. reflexivity.
+Qed.
+
+Lemma repeat_bytes c n : byteb c = true -> is_bytes (repeat c n) = true.
+Proof. intros H. induction n; simpl; auto. unfold is_bytes in *. simpl. rewrite IHn. unfold byteb, is_byte in *. rewrite H. reflexivity. Qed.
+
+Lemma open_bytes n : is_bytes (open_bracket n) = true.
+Proof. unfold open_bracket. change (91 :: repeat 61 n ++ [91]) with ([91] ++ repeat 61 n ++ [91]). rewrite !is_bytes_app_iff, repeat_bytes by reflexivity. reflexivity. Qed.
+
+Lemma close_bytes n : is_bytes (close_bracket n) = true.
+Proof. unfold close_bracket. change (93 :: repeat 61 n ++ [93]) with ([93] ++ repeat 61 n ++ [93]). rewrite !is_bytes_app_iff, repeat_bytes by reflexivity. reflexivity. Qed.
+
+Lemma nl_bytes_bytes k : is_bytes (nl_bytes k) = true.
+Proof. destruct k; reflexivity. Qed.
+
+Lemma number_bytes s : number_ok s = true -> is_bytes s = true.
+Proof.
+  unfold number_ok. intros H. apply orb_true_iff in H. destruct H as [H|H].
+  - destruct (hex_number_ok_inv s H) as (x & y & r & -> & Hx & Hr).
+    change (48 :: x :: y :: r) with ([48] ++ [x] ++ (y :: r)). rewrite !is_bytes_app_iff.
+    rewrite (class_bytes is_hex (y :: r)); auto.
+    + assert (Hx' : x = 120 \/ x = 88) by lia. destruct Hx'; subst; reflexivity.
+    + intros c Hc. unfold is_hex, is_dec, byteb in *. lia.
+  - destruct (dec_number_decomp s H) as (M & E & G & -> & _ & HM & HG & HE).
+    rewrite !is_bytes_app_iff. rewrite (class_bytes P1 M), (class_bytes is_dec G); auto.
+    + destruct HE as [[-> _]|(_ & e & He & [->|(sg & Hsg & ->)])]; auto;
+        destruct He; subst; auto; destruct Hsg; subst; reflexivity.
+    + intros c Hc. unfold is_dec, byteb in *. lia.
+    + intros c Hc. apply P1_class; auto.
+Qed.
+
+Lemma sitem_bytes_bytes q i : sitem_ok q i = true -> is_bytes (sitem_bytes i) = true.
+Proof.
+  destruct i as [c|c|k|d1 d2 d3]; cbn [sitem_ok sitem_bytes]; intros H.
+  - apply andb_true_iff in H. destruct H as [H _]. apply andb_true_iff in H. destruct H as [H _].
+    apply andb_true_iff in H. destruct H as [H _]. unfold is_bytes. simpl. rewrite H. reflexivity.
+  - destruct (esc_value c) eqn:E; [|discriminate]. destruct (esc_value_class _ _ E) as [_ Hb].
+    unfold is_bytes. simpl. unfold byteb, is_byte in *. rewrite Hb. reflexivity.
+  - change (92 :: nl_bytes k) with ([92] ++ nl_bytes k). rewrite is_bytes_app_iff, nl_bytes_bytes. reflexivity.
+  - unfold is_digit_val in H. unfold is_bytes, is_byte. cbn [forallb]. lia.
+Qed.
+
+Lemma lexeme_bytes_bytes l : lexeme_ok l = true -> is_bytes (lexeme_bytes l) = true.
+Proof.
+  destruct l as [s|s|q items|lvl body|ty]; cbn [lexeme_ok lexeme_bytes]; intros H.
+  - destruct s as [|c s']; [discriminate|]. simpl in H. apply andb_true_iff in H. destruct H as [H1 H2].
+    change (c :: s') with ([c] ++ s'). rewrite is_bytes_app_iff.
+    rewrite (class_bytes (fun c => is_ident c 1) s'); auto.
+    + destruct (ident0_class _ H1) as (_ & Hb & _). unfold is_bytes. simpl. unfold byteb, is_byte in *. rewrite Hb. reflexivity.
+    + intros c' Hc'. apply ident_class; auto.
+  - apply number_bytes; auto.
+  - apply andb_true_iff in H. destruct H as [Hq Hi].
+    change (q :: flat_map sitem_bytes items ++ [q]) with ([q] ++ flat_map sitem_bytes items ++ [q]).
+    rewrite !is_bytes_app_iff.
+    assert (Hqb : is_bytes [q] = true) by (assert (q = 34 \/ q = 39) as [->| ->] by lia; reflexivity).
+    rewrite Hqb. cbn [andb]. rewrite andb_true_r.
+    induction items as [|i r IH]; auto. cbn [flat_map forallb] in *. apply andb_true_iff in Hi. destruct Hi as [Hi1 Hi2].
+    rewrite is_bytes_app_iff, (sitem_bytes_bytes q i), IH; auto.
+  - apply andb_true_iff in H. destruct H as [Hb _].
+    rewrite !is_bytes_app_iff, open_bytes, close_bytes, Hb. reflexivity.
+  - unfold sym_bytes. destruct (lookup_sym sym_table ty) as [b|] eqn:El; [|discriminate].
+    apply lookup_sym_in in El. cbn [sym_table In] in El.
+    repeat (destruct El as [El|El]; [inversion El; reflexivity|]). contradiction.
+Qed.
+
+Lemma sepitem_bytes_bytes i : sepitem_ok i = true -> is_bytes (sepitem_bytes i) = true.
+Proof.
+  destruct i as [c|k|text k|lvl body]; cbn [sepitem_ok sepitem_bytes]; intros H.
+  - unfold is_blank in H. unfold is_bytes, is_byte. simpl. lia.
+  - apply nl_bytes_bytes.
+  - apply andb_true_iff in H. destruct H as [H _]. apply andb_true_iff in H. destruct H as [H _].
+    change (45 :: 45 :: text ++ nl_bytes k) with ([45; 45] ++ text ++ nl_bytes k).
+    rewrite !is_bytes_app_iff, H, nl_bytes_bytes. reflexivity.
+  - apply andb_true_iff in H. destruct H as [H _].
+    change (45 :: 45 :: open_bracket lvl ++ body ++ close_bracket lvl)
+      with ([45; 45] ++ open_bracket lvl ++ body ++ close_bracket lvl).
+    rewrite !is_bytes_app_iff, H, open_bytes, close_bytes. reflexivity.
+Qed.
+
+Lemma sep_bytes_bytes s : forallb sepitem_ok s = true -> is_bytes (sep_bytes s) = true.
+Proof.
+  induction s as [|i r IH]; auto. cbn [forallb]. intros H.
+  change (sep_bytes (i :: r)) with (sepitem_bytes i ++ sep_bytes r).
+  apply andb_true_iff in H. destruct H. rewrite is_bytes_app_iff, sepitem_bytes_bytes, IH; auto.
+Qed.
+
+Lemma render_bytes items trailer : good items trailer = true -> is_bytes (render items trailer) = true.
+Proof.
+  induction items as [|[s l] r IH]; cbn [good render]; intros H.
+  - apply sep_bytes_bytes; auto.
+  - apply andb_true_iff in H. destruct H as [H Hg]. apply andb_true_iff in H. destruct H as [H _].
+    apply andb_true_iff in H. destruct H as [Hs Hl].
+    rewrite !is_bytes_app_iff, sep_bytes_bytes, lexeme_bytes_bytes, IH; auto.
+Qed.
+
+Lemma lexeme_head l : lexeme_ok l = true ->
+  exists c r, lexeme_bytes l = c :: r /\ blankb c = false /\ byteb c = true.
+Proof.
+  destruct l as [s|s|q items|lvl body|ty]; cbn [lexeme_ok lexeme_bytes]; intros H.
+  - destruct s as [|c s']; [discriminate|]. simpl in H. apply andb_true_iff in H. destruct H as [H1 _].
+    exists c, s'. split; auto. unfold is_ident, is_dec in H1. unfold blankb, is_blank, is_nl, byteb. lia.
+  - destruct (number_first s H) as (c0 & s' & -> & Hc). exists c0, s'. split; auto.
+    destruct Hc as [Hc|[-> _]]; [unfold is_dec in Hc; unfold blankb, is_blank, is_nl, byteb; lia|split; reflexivity].
+  - apply andb_true_iff in H. destruct H as [Hq _]. eexists q, _. split; [reflexivity|].
+    assert (q = 34 \/ q = 39) as [->| ->] by lia; split; reflexivity.
+  - exists 91, (open_tail lvl ++ body ++ close_bracket lvl). split; [|split; reflexivity].
+    unfold open_bracket, open_tail. cbn [app]. rewrite <- app_assoc. reflexivity.
+  - unfold sym_bytes. destruct (lookup_sym sym_table ty) as [b|] eqn:El; [|discriminate].
+    apply lookup_sym_in in El. cbn [sym_table In] in El.
+    repeat (destruct El as [El|El]; [inversion El; eexists _, _; split; [reflexivity|split; reflexivity]|]).
+    contradiction.
+Qed.
+
+(* ---------- the whole token list ---------- *)
+
+Definition same_shape (t e : token) : Prop :=
+  tk_type t = tk_type e /\ tk_text t = tk_text e /\ tk_off t = tk_off e.
+
+Lemma scan_tok_eof fuel redo st1 : scan_tok fuel redo (-1) st1 = SEof st1.
+Proof. reflexivity. Qed.
+
+Lemma lex_items bs : forall items trailer fuel st o,
+  good items trailer = true ->
+  at_ st (render items trailer) o -> (length (render items trailer) < fuel)%nat ->
+  exists toks, lex_fuel fuel st = LexOk toks /\ Forall2 same_shape toks (expected_from bs items o).
+Proof.
+  induction items as [|[s l] r IH]; intros trailer fuel st o Hg Hat Hf; cbn [good render expected_from] in *.
+  - (* only the trailing separator is left *)
+    destruct fuel as [|f]; [lia|]. cbn [lex_fuel].
+    assert (R : exists st', scan (S f) st = SEof st').
+    { rewrite <- (app_nil_r (sep_bytes trailer)) in Hat, Hf.
+      apply (scan_sep (fun r => exists st', r = SEof st') [] I (S f) (sep_bytes trailer) st o
+               (sep_bytes_sepb _ Hg) Hat Hf).
+      intros fuel' redo stX _ AX. destruct (next_eof _ _ AX) as (st' & N & _). rewrite N.
+      rewrite scan_tok_eof. eauto. }
+    destruct R as (st' & ->). exists []. split; auto.
+  - apply andb_true_iff in Hg. destruct Hg as [Hg Hgr]. apply andb_true_iff in Hg. destruct Hg as [Hg Hm].
+    apply andb_true_iff in Hg. destruct Hg as [Hs Hl].
+    set (tail := render r trailer) in *.
+    destruct fuel as [|f]; [lia|]. cbn [lex_fuel].
+    destruct (lexeme_head l Hl) as (c & rest & Eh & Hcb & Hcy).
+    assert (HX : Xstart (lexeme_bytes l ++ tail)) by (rewrite Eh; simpl; auto).
+    assert (R : exists ln st', scan (S f) st =
+                  STok (mkTok (lexeme_type l) (lexeme_text l) ln (o + len (sep_bytes s))) st' /\
+                  at_ st' tail (o + len (sep_bytes s) + len (lexeme_bytes l))).
+    { apply (scan_sep (fun r => exists ln st', r =
+                  STok (mkTok (lexeme_type l) (lexeme_text l) ln (o + len (sep_bytes s))) st' /\
+                  at_ st' tail (o + len (sep_bytes s) + len (lexeme_bytes l)))
+               _ HX (S f) (sep_bytes s) st o (sep_bytes_sepb _ Hs) Hat Hf).
+      intros fuel' redo stX Hf' AX.
+      destruct (lexeme_tok_ok l tail Hl Hm fuel' redo stX _ Hf' AX) as (ch & st1 & st' & N & E & A').
+      rewrite N, E. eauto. }
+    destruct R as (ln & st' & E & A'). rewrite E.
+    destruct (IH trailer f st' _ Hgr A') as (toks & Et & Fs).
+    { subst tail. rewrite !app_length, Eh in Hf. cbn [length] in Hf. clear - Hf. lia. }
+    rewrite Et. cbn [lex_cons]. eexists. split; [reflexivity|].
+    constructor; [repeat split|exact Fs].
+Qed.
+
+Lemma expected_lines bs : forall items pos,
+  Forall (fun e => tk_line e = line_of_offset bs (tk_off e)) (expected_from bs items pos).
+Proof.
+  induction items as [|[s l] r IH]; intros pos; cbn [expected_from]; constructor; auto.
+Qed.
+
+Lemma shape_lines_eq bs toks exp :
+  Forall2 same_shape toks exp ->
+  Forall (fun t => tk_line t = line_of_offset bs (tk_off t) /\ 0 <= tk_off t < len bs) toks ->
+  Forall (fun e => tk_line e = line_of_offset bs (tk_off e)) exp ->
+  toks = exp.
+Proof.
+  induction 1 as [|t e toks exp Hs HF IH]; intros Ht He; auto.
+  inversion Ht as [|? ? [Hl _] Ht']; subst. inversion He as [|? ? Hle He']; subst.
+  f_equal; [|apply IH; auto].
+  destruct Hs as (H1 & H2 & H3). destruct t as [ty tx ln o], e as [ty' tx' ln' o']. simpl in *. subst.
+  reflexivity.
+Qed.
+
+(* headline: layout independence of the token stream *)
+Lemma lex_render_lemma items trailer :
+  good items trailer = true -> lex (render items trailer) = LexOk (expected_tokens items trailer).
+Proof.
+  intros Hg. set (bs := render items trailer).
+  destruct (lex_items bs items trailer (S (length bs)) (init_state bs) 0 Hg) as (toks & E & Fs).
+  - split; reflexivity.
+  - subst bs. lia.
+  - unfold lex. fold bs. rewrite E. f_equal. unfold expected_tokens. fold bs.
+    apply (shape_lines_eq bs); auto.
+    + apply lexer_lines_correct_lemma; [apply render_bytes; auto|]. left. exact E.
+    + apply expected_lines.
+Qed.
+
+(* corollary: two layouts of the same lexemes give the same (type, text) sequence *)
+Definition tok_strip (t : token) : Z * bytes := (tk_type t, tk_text t).
+
+Lemma expected_strip bs items pos :
+  map tok_strip (expected_from bs items pos)
+  = map (fun l => (lexeme_type l, lexeme_text l)) (map snd items).
+Proof.
+  revert pos. induction items as [|[s l] r IH]; intros pos; cbn [expected_from map snd]; auto.
+  f_equal. apply IH.
+Qed.
+
+Lemma lex_layout_independent_lemma items1 tr1 items2 tr2 :
+  good items1 tr1 = true -> good items2 tr2 = true -> map snd items1 = map snd items2 ->
+  exists t1 t2, lex (render items1 tr1) = LexOk t1 /\ lex (render items2 tr2) = LexOk t2 /\
+                map tok_strip t1 = map tok_strip t2.
+Proof.
+  intros G1 G2 E. exists (expected_tokens items1 tr1), (expected_tokens items2 tr2).
+  split; [apply lex_render_lemma; auto|]. split; [apply lex_render_lemma; auto|].
+  unfold expected_tokens. rewrite !expected_strip, E. reflexivity.
+Qed.
